@@ -157,16 +157,25 @@ impl<'a> SiteWalker<'a> {
                                     if is_proto_path && !call_optional && callee["optional"] != json!(true) && !args.is_empty() && args[0]["spread"] != json!(true) {
                                         let this_arg = &args[0]["expression"];
                                         let this_non_literal = !is_literal(this_arg);
+                                        // a string-literal receiver is covered for concat / replace / .. when an argument is not a literal
+                                        let literal_caller = ty(this_arg) == "StringLiteral" && LITERAL_CALLER_METHODS.contains(&method);
+                                        let non_literal = |e: &Value| !e.is_null() && e["spread"] != json!(true) && !is_literal(&e["expression"]) && !is_undefined_or_null_ident(&e["expression"]);
                                         if m == "call" {
                                             if this_non_literal {
                                                 base = Expect::Must;
                                                 why = "X.prototype.m.call(thisArg, ..)";
+                                            } else if literal_caller && args.iter().skip(1).all(|a| a["spread"] != json!(true)) && args.iter().skip(1).any(non_literal) {
+                                                base = Expect::Must;
+                                                why = "X.prototype.m.call('literal', <non-literal>) of a method covered for literal receivers";
                                             }
                                         } else if args.len() >= 2 && args[1]["spread"] != json!(true) && ty(&args[1]["expression"]) == "ArrayExpression" {
                                             let elems = args[1]["expression"]["elements"].as_array().cloned().unwrap_or_default();
                                             if this_non_literal && elems.iter().all(|e| !e.is_null()) && args.len() == 2 {
                                                 base = Expect::Must;
                                                 why = "X.prototype.m.apply(thisArg, [..])";
+                                            } else if literal_caller && args.len() == 2 && elems.iter().all(|e| !e.is_null() && e["spread"] != json!(true)) && elems.iter().any(non_literal) {
+                                                base = Expect::Must;
+                                                why = "X.prototype.m.apply('literal', [<non-literal>]) of a method covered for literal receivers";
                                             }
                                         }
                                     }
